@@ -11,6 +11,8 @@ R-C17.3  negative literals are folded to constants before checking (`-9223372036
 R-C17.4  lowering uses the type's signedness and width: `python_value_to_hugr` interpreted on int values at nat / int, bare
          and inside tuple / list constants, with recording constructors (c17_lowering.py; match-arm shape only as fallback).
 R-C17.5  all constant entry points reach the range-checked function.
+R-C17.6  integers written as type arguments (`array[int, N]`, literal or `comptime(n)`): `arg_from_ast` interpreted on 12 values --
+         accepted as that nat constant iff 0 <= N <= 2^64 - 1, rejected with a Guppy error otherwise (c17_typearg.py).
 Not decided: the value the compiled program observes.
 """
 
@@ -300,3 +302,7 @@ def run(ctx: Ctx) -> None:
         order = [dotted(m.pattern.cls) if isinstance(m.pattern, ast.MatchClass) else "" for m in walk_no_nested(pv.node) if isinstance(m, ast.match_case)]
         ctx.check("bool" in order and order.index("bool") < order.index("int"), "R-C17.5", f"{pv.qualname}#bool-before-int", pv.where, {"arm_order": [o for o in order if o]},
                   "True/False would be typed as integers (bool is a subclass of int)")
+
+    # ------------------------------------------------------------ R-C17.6 integers in type-argument position
+    from . import c17_typearg
+    c17_typearg.run(ctx)
